@@ -101,6 +101,8 @@ struct SigIntStr {
     static long expect(int a) { return (a + 100) * 1000 + a; }
 };
 
+struct CallbackThrew {};   // thrown by a callback whose script says so
+
 // ---- per-execution state ------------------------------------------------------------------------
 struct LogEntry {
     int id;
@@ -141,6 +143,7 @@ struct Run {
     void run_script(int self, const Script &sc, int *cell = nullptr) {
         for (const Op &op : sc) {
             int t = op.t == 0 ? self : op.t;
+            if (op.k == "throw") throw CallbackThrew{};   // leaves every notify() on the stack; caught where the test called notify
             if (op.k == "notify") {
                 if (g_depth < g_max_depth) {
                     ++g_depth;
@@ -318,6 +321,9 @@ void run_typed(const Execution &ex) {
                 }
             } catch (const std::invalid_argument &) {
                 res = "rejected";
+            } catch (const CallbackThrew &) {
+                res = "threw";
+                g_depth = 0;
             }
             emit(op, res);
             ++i;
@@ -371,6 +377,9 @@ void run_typed(const Execution &ex) {
             }
         } catch (const std::invalid_argument &) {
             res = "rejected";
+        } catch (const CallbackThrew &) {
+            res = "threw";
+            g_depth = 0;
         }
         emit(op, res);
         ++i;
